@@ -14,6 +14,7 @@ is written in the plan:
 
 No PRNG, no clock: replaying a schedule reproduces the interleaving exactly.
 """
+import os
 import sys
 import threading
 
@@ -103,8 +104,10 @@ def install_cooperative_locks():
 
 class BatonScheduler(object):
     def __init__(self, order, preempts, granularity, watch, max_steps=200000, join_timeout=30.0, ticks=None, clock=None,
-                 hot_funcs=(), hot_bits=(), record_funcs=False):
+                 hot_funcs=(), hot_bits=(), record_funcs=False, record_trace=False):
         self.order = list(order)
+        # the location of every yield point, in order (calibration runs: which lines does a request pass, and when)
+        self.trace = [] if record_trace else None
         self.pre = {}
         for step, target in preempts:
             self.pre.setdefault(int(step), target)
@@ -152,6 +155,8 @@ class BatonScheduler(object):
                 self.clock.advance(dt)
         if self.func_steps is not None:
             self.func_steps[code.co_name] = self.func_steps.get(code.co_name, 0) + 1
+        if self.trace is not None:
+            self.trace.append('%s:%s:%s' % (os.path.basename(code.co_filename), code.co_name, where))
         target = self.pre.get(self.steps)
         if target is None and self.hot and code.co_name in self.hot and self.hot_i < len(self.hot_bits) and len(self.alive) >= 2:
             bit = self.hot_bits[self.hot_i]
